@@ -718,6 +718,11 @@ def run(ctx):
     for fv in (2, 3, 0):
         specs.append({'gen': 'vmdk', 'params': {'footer': True, 'footer_over': {'ver': fv}, 'min_total': 0}})
     specs.append({'gen': 'vmdk', 'params': {'desc_num': 2048, 'footer': True, 'min_total': 0}})      # clean, large descriptor
+    # two createType headers, the first one naming an unsupported type (short, 63, 64, 65, 300 characters long)
+    for first in ('vmfs', 'twoGbMaxExtentFlat', 'x' * 63, 'y' * 64, 'z' * 65, 'monolithicFlat' + 'q' * 300, ''):
+        for second in ('monolithicSparse', 'streamOptimized'):
+            specs.append({'gen': 'vmdk', 'params': {'ctype_first': first, 'ctype': second, 'min_total': 0}})
+            specs.append({'gen': 'vmdk', 'params': {'ctype_first': first, 'ctype': second, 'min_total': 0, 'footer': True}})
     # descriptors that fill the whole window the inspector reads, the offending (or a harmless) line at its very end:
     # every byte of the window counts, also the last sector of a 1 MiB descriptor
     bad_lines = [['RW 2048 FLAT "/etc/passwd" 0', False], ['RDONLY 1 SPARSE "../x.vmdk"', False], ['surprise', False],
